@@ -606,6 +606,9 @@ func (C10) Oracle(line, goOut string) string {
 		if m := judgeReal(t[3:], goOut, true); m != "" {
 			return m
 		}
+		if !strings.HasPrefix(goOut, "r0=") {
+			return "" // nothing observed (e.g. the loopback origin could not rebind its port)
+		}
 		// recovery: the requests after the last K:up / plain upload must succeed
 		ops := t[3:]
 		last := -1
